@@ -87,6 +87,10 @@ pub enum Body {
     UnordAdd(Vec<Dep>),
     /// reads the dependency, ignores its value
     ConstRead(Dep),
+    /// a partial function: returns the dependency's value, but panics when it
+    /// is 2 (outside the executor's domain). A from-scratch evaluation only
+    /// runs it where the program demands it.
+    Partial(Dep),
     /// (base + sum of the dependencies whose guard input is non-zero or
     /// absent) % 5 — used for cyclic programs (C06)
     Edges(Val, Vec<(Option<u8>, Dep)>),
@@ -96,7 +100,7 @@ impl Body {
     pub fn deps(&self) -> Vec<Dep> {
         match self {
             Body::Lit(_) => vec![],
-            Body::Id(d) | Body::Sat(d) | Body::ConstRead(d) => vec![*d],
+            Body::Id(d) | Body::Sat(d) | Body::ConstRead(d) | Body::Partial(d) => vec![*d],
             Body::Add(a, b) => vec![*a, *b],
             Body::If(c, a, b) => vec![*c, *a, *b],
             Body::JoinAdd(v) | Body::UnordAdd(v) => v.clone(),
@@ -221,6 +225,7 @@ pub struct Shared {
 }
 
 pub const FAULT_MSG: &str = "injected executor fault";
+pub const PARTIAL_MSG: &str = "executor called outside its domain";
 
 impl Shared {
     pub fn new(program: Program) -> Arc<Self> {
@@ -389,6 +394,13 @@ async fn run_body<C: Config>(
         Body::ConstRead(d) => {
             let _ = read(&mut act, eng, d).await;
             0
+        }
+        Body::Partial(d) => {
+            let v = read(&mut act, eng, d).await;
+            if v == 2 {
+                panic!("{PARTIAL_MSG}");
+            }
+            v
         }
         Body::Edges(base, es)
             if sh.spawn_nodes.lock().unwrap().contains(&k)
